@@ -153,9 +153,17 @@ def run_case(case):
                      'staleResult'))
     nested = []
     if rng.random() < .6:
-        sub = rng.choice(['archive', '0dir', 'zdir'])
-        nested.append((sub + '/inner_5F0000A1', bytes(encode.encode(dirrun.mk_pel(rng, 0x5F0000A1, plid=0x50000001)))))
-        nested.append((sub + '/deeper/x', b'\x00' * 10))
+        # one, two or three subdirectories (empty ones among them): what they hold - logs of their own, junk, a file
+        # that carries the NAME of a top-level log with another log in it - is none of the directory modes' business
+        for j, sub in enumerate(rng.sample(['archive', '0dir', 'zdir', 'Mid'], rng.choice([1, 2, 2, 3]))):
+            kind = rng.choice(['empty', 'logs', 'namesake', 'logs']) if j else 'logs'
+            if kind == 'empty':
+                nested.append((sub + '/.keep_dir', ('mkdir', None)))
+                continue
+            nested.append((sub + '/inner_5F0000A%d' % (j + 1), bytes(encode.encode(dirrun.mk_pel(rng, 0x5F0000A1 + j, plid=0x50000001)))))
+            nested.append((sub + '/deeper/x', b'\x00' * 10))
+            if kind == 'namesake':
+                nested.append((sub + '/' + files[0][0], bytes(encode.encode(dirrun.mk_pel(rng, 0x5F0000B1 + j, plid=0x50000001)))))
     recs = []
     for mode in MODES:
         dirrun.write_dir(d, files)
